@@ -173,9 +173,13 @@ class Program:
         self.repo = repo
         self.overflow_checks = overflow_checks
         self.funcs = []
+        self.allocs = {}      # (crate, 'allocN') -> static item name
         for path in mir_files:
             crate = os.path.basename(path).split(".")[0]
-            for f in parse_mir(open(path).read()):
+            txt_ = open(path).read()
+            for ma in re.finditer(r"^(alloc\d+) \(static: ([^,)]+)", txt_, re.M):
+                self.allocs[(crate, ma.group(1))] = ma.group(2).strip()
+            for f in parse_mir(txt_):
                 f.generic = crate
                 self.funcs.append(f)
         self.by_last = {}
@@ -703,6 +707,13 @@ class Executor:
         m = re.fullmatch(r"(?:[\w:]*::)?(\w+)::<.*>::(\w+)", text)
         if m and m.group(1) in self.prog.enums and m.group(2) in self.prog.enums[m.group(1)]:
             return EnumV(m.group(1), self.prog.enums[m.group(1)].index(m.group(2)))
+        ma = re.fullmatch(r"\{(alloc\d+): &(?:mut )?(.*)\}", text)
+        if ma:
+            crate = fr.fn.generic if fr is not None else None
+            name = self.prog.allocs.get((crate, ma.group(1)))
+            if name is None:
+                raise Unsupported("reference to unknown allocation %s" % text)
+            return RefV(box=("static", name))
         if text.startswith("ZeroSized: "):
             text = text[11:]
         if text.startswith("{closure@"):
@@ -825,6 +836,8 @@ class Executor:
             if r.box[0] == "const":
                 v = r.box[2].v
             else:
+                if r.box not in st.heap and r.box[0] == "static":
+                    self._init_static(st, r.box)
                 v = st.heap[r.box]
             return self._project(st, None, v, r.proj)
         fr = st.frame(r.fuid)
@@ -835,6 +848,8 @@ class Executor:
         if r.box is not None:
             if r.box[0] == "const":
                 raise Unsupported("write through reference to constant")
+            if r.box not in st.heap and r.box[0] == "static":
+                self._init_static(st, r.box)
             st.heap[r.box] = self._update(st, None, st.heap[r.box], r.proj, val)
             return
         fr = st.frame(r.fuid)
@@ -842,6 +857,15 @@ class Executor:
             fr.locals[r.local] = val
         else:
             fr.locals[r.local] = self._update(st, fr, self.read_local(st, fr, r.local), r.proj, val)
+
+    def _init_static(self, st, box):
+        """a plain `static` item is ONE cell shared by all threads; its initial value comes from the item's MIR"""
+        name = box[1]
+        cands = [c for c in self.prog.consts.get(Program._const_key(name), []) if c.kind == "static" and c.name == name]
+        if len(cands) != 1:
+            raise Unsupported("static item %s not found" % name)
+        st.heap[box] = self.const_value(st, cands[0])
+        st.obs.append(("static-init", name))
 
     def conc(self, st, t, what="value"):
         """concrete value of an int term (python int), forking if needed"""
